@@ -132,6 +132,20 @@ def body(ctx):
         tr = [dict(ev='br', n=e['n'], left=e['left']) for e in rr.events if e['ev'] == 'br'] + [dict(ev='cmp', same=bool(same))]
         traces.append(tr)
         meta.append(dict(kind='paired-session', mode=mode, spec=spec))
+    # 3a'. payloads above the legacy 4 KiB limit that arrive in several reads: what the caller is handed is the same object type with the
+    #      same content as under unfragmented delivery (raw streaming output, pulled data, listings)
+    for j, frag in enumerate(('random', 'bytes1', 'poll', 'random')):
+        spec = dict(seed=ctx.seed + 500 + j, maxdata=65536, rid='plus', frag=frag, rtype=RTYPES[j % len(RTYPES)],
+                    ops=[dict(api='streaming_shell', decode=False, cmd='big', chunks=[(bytes([65 + j]) * 5000).hex(), (b'xy' * 4500).hex(), b'tail'.hex()]),
+                         dict(api='shell', decode=False, cmd='big2', chunks=[(b'q' * 4097).hex()]),
+                         dict(api='pull', path='/p', size=20000, data_sizes=[10000, 10000], cuts='whole', dest='bytesio')])
+        for mode in ('sync', 'async'):
+            rr = scen.run(spec, mode, log_io=True)
+            r0 = scen.run(dict(spec, frag='whole', rtype=None), mode)
+            key = lambda r_: [o.key() if o.kind == 'exc' else ('ret', repr(o.value), type(o.value).__name__, [type(x).__name__ for x in o.value] if isinstance(o.value, list) else None) for o in r_.outcomes]  # noqa
+            same = key(rr) == key(r0) and rr.extra.get('pulled') == r0.extra.get('pulled')
+            traces.append([dict(ev='br', n=e['n'], left=e['left']) for e in rr.events if e['ev'] == 'br'] + [dict(ev='cmp', same=bool(same))])
+            meta.append(dict(kind='paired-session (payloads above 4 KiB, result types compared)', mode=mode, spec=spec))
     # 3b corruption of a 64-byte payload: every bit, every byte
     allmuts = [(i, 1 << b) for i in range(64) for b in range(8)] + [(i, 0xFF) for i in range(64)]
     cases = []
